@@ -175,16 +175,18 @@ def h_param_after_rewrite(ctx, rw, where, v0):
         c.mode_swaps({1: 2, 2: 1})
         c.bs(0, 2, reflectivity=ctx.m.frac(1, 4))
         return c
+    # the reference is the same program built afresh around its own Parameter (a plain loss of 0 would
+    # add no loss element at all, so the matrices would differ in size for a reason unrelated to rewrites)
     par = lw.Parameter(start)
     c = build(par)
     n0 = len(c._get_circuit_spec())
     out = _rewrite(c, rw)
-    ctx.check_eq(out.U_full, build(start).U_full, f"param-after:{rw}:U_full-unchanged")
+    ctx.check_eq(out.U_full, build(lw.Parameter(start)).U_full, f"param-after:{rw}:U_full-unchanged")
     par.set(v1)
     if rw == "copy_frozen":
-        ctx.check_eq(out.U_full, build(start).U_full, f"param-after:{rw}:frozen-copy-keeps-the-old-value")
+        ctx.check_eq(out.U_full, build(lw.Parameter(start)).U_full, f"param-after:{rw}:frozen-copy-keeps-the-old-value")
     else:
-        ctx.check_eq(out.U_full, build(v1).U_full, f"param-after:{rw}:U_full-follows-the-parameter-like-the-original")
+        ctx.check_eq(out.U_full, build(lw.Parameter(v1)).U_full, f"param-after:{rw}:U_full-follows-the-parameter-like-the-original")
     if rw == "compress_mode_swaps":
         ctx.check(len(out._get_circuit_spec()) <= n0, f"param-after:{rw}:components-not-grown")
 
